@@ -351,6 +351,19 @@ func (e *Enc) loadLoc(st *State, l *Loc) *Val {
 			}
 		}
 	}
+	// slice values held in memory are well-formed slices (type invariant of every Go slice value): 0 <= off, 0 <= len <= cap <= maxInt
+	for i := 0; i+3 < len(leaves); i++ {
+		if _, isSlice := leaves[i].T.Underlying().(*types.Slice); !isSlice || !strings.HasSuffix(leaves[i].Path, ".base") && leaves[i].Path != "base" {
+			continue
+		}
+		pre := strings.TrimSuffix(leaves[i].Path, "base")
+		if leaves[i+1].Path == pre+"off" && leaves[i+2].Path == pre+"len" && leaves[i+3].Path == pre+"cap" {
+			f := "(and (<= 0 " + v.L[i+1].T + ") (<= 0 " + v.L[i+2].T + ") (<= " + v.L[i+2].T + " " + v.L[i+3].T + ") (<= " + v.L[i+3].T + " 9223372036854775807))"
+			if !strings.Contains(f, "|q!") {
+				e.assertTyping(f)
+			}
+		}
+	}
 	return v
 }
 
@@ -498,7 +511,7 @@ func (e *Enc) nestedSlicesWellFormed(v *Val) {
 		}
 		pre := strings.TrimSuffix(p, ".base")
 		if sh[i+1].Path == pre+".off" && sh[i+2].Path == pre+".len" && sh[i+3].Path == pre+".cap" {
-			e.assert("(<= " + v.L[i+2].T + " " + v.L[i+3].T + ")")
+			e.assert("(and (<= " + v.L[i+2].T + " " + v.L[i+3].T + ") (<= " + v.L[i+3].T + " 9223372036854775807))")
 			e.assert("(=> (= " + v.L[i].T + " 0) (= " + v.L[i+2].T + " 0))")
 		}
 	}
@@ -510,7 +523,7 @@ func (e *Enc) sliceWellFormed(v *Val) {
 		return
 	}
 	if _, ok := v.T.Underlying().(*types.Slice); ok && len(v.L) == 4 {
-		e.assert("(and (<= 0 " + v.L[1].T + ") (<= 0 " + v.L[2].T + ") (<= " + v.L[2].T + " " + v.L[3].T + "))")
+		e.assert("(and (<= 0 " + v.L[1].T + ") (<= 0 " + v.L[2].T + ") (<= " + v.L[2].T + " " + v.L[3].T + ") (<= " + v.L[3].T + " 9223372036854775807))")
 		e.assert("(=> (= " + v.L[0].T + " 0) (= " + v.L[2].T + " 0))")
 	}
 }
